@@ -373,7 +373,8 @@ OP(assign_il) {
     if (which) { VF_TRY(c, c.v().assign({e0, e1})); } else { VF_TRY(c, (c.v() = {e0, e1})); }
     expect_exc(c, must_overflow(2));
     if (OK(c)) { uint8_t two[2] = {x, y}; c.m.assign_range(two, 2); }
-    c.post(vf::F_NO_PREFIX, 2, 0);
+    // 'v = {..}' selects Vector::operator=(Vector&&) on a temporary (the base's operator=(initializer_list) is hidden): a move
+    c.post(which ? vf::F_NO_PREFIX : (vf::F_NO_PREFIX | vf::F_MAY_SHRINK | vf::F_HANDOVER), 2, 0);
   }
   vf_reach(1);
   c.finish();
@@ -443,14 +444,14 @@ OP(append_n_val) {
 }
 
 // ------------------------------------------------------------------------------------------------ constructors (base case of the induction)
-static void ctor_check(V &w, const Seq &m, bool expectInline) {
+static void ctor_check(V &w, const Seq &m, bool expectInline, uint8_t allocBase = 0) {
   vf_assert(w.size() == m.n && w.empty() == (m.n == 0), 1001);
   for (unsigned i = 0; i < VF_MAXM; ++i) { if (i >= m.n || i >= w.size()) break; vf_assert(Elem<E>::val(w.data()[i]) == m.a[i], 1003); vf_assert(Elem<E>::sound(w.data()[i]), 2002); }
   vf_assert(w.size() <= w.capacity() && w.capacity() <= w.max_size(), 7001);
   if (VF_KIND == 1 && expectInline) {
     uintptr_t d = vf::addr(w.data()), o = vf::addr(&w);
     vf_assert(d >= o && d < o + sizeof(V) && w.capacity() == VF_N, 5002);
-    vf_assert(vf::g_alloc_calls == 0, 5001);
+    vf_assert(vf::g_alloc_calls == allocBase, 5001);
   }
   vf_assert(vf::g_bad == 0, 2001); vf_assert(vf::g_abad == 0, 6001);
 }
@@ -525,7 +526,7 @@ OP(copy_ctor) {
     expect_exc(c, false);
     vf::g_fault_at = 0;
     if (OK(c)) {
-      ctor_check(*w, c.m, c.m.n <= VF_N);
+      ctor_check(*w, c.m, c.m.n <= VF_N, c.alloc0);
       c.check_contents(c.m);
       if (Elem<E>::ledger) vf_assert(vf::alive_count() == 2 * c.m.n, 2003);
       w->~V();
@@ -547,7 +548,7 @@ OP(move_ctor) {
     alignas(16) uint8_t buf2[sizeof(V)];
     uint16_t ops = vf::g_ops;
     V *w = ::new (static_cast<void *>(buf2)) V(std::move(c.v()));
-    ctor_check(*w, c.m, false);
+    ctor_check(*w, c.m, false, c.alloc0);
     if (!c.inline0 && c.cap0 != 0) {
       // heap-backed source: the buffer is handed over, element addresses preserved, no element operation (C07)
       vf_assert(w->data() == c.data0 && w->capacity() == c.cap0 && vf::g_ops == ops, 7006);
